@@ -3,8 +3,9 @@
 (* read_*_buffer()) recorded step by step and checked against the framing    *)
 (* property of module Stream.  Trace lines:                                  *)
 (*  [ev |-> "start", run, kind, frs]            a new client, a new stream   *)
-(*  [ev |-> "step", run, n, out]                n more bytes arrived; `out`  *)
-(*                                              = messages returned (text)   *)
+(*  [ev |-> "step", run, n, out, x]             n more bytes arrived; `out`  *)
+(*                                              = messages returned (text);  *)
+(*                                              x = 1: the reader raised     *)
 (*  [ev |-> "net", run, src, msgs, adsb, commb] NetSource / RtlSdrSource:    *)
 (*                                              handed messages,             *)
 (*                                              everything forwarded + local *)
@@ -37,10 +38,10 @@ Next ==
        [] e.ev = "step" ->
             LET np == p + e.n
                 no == out \o e.out
-                ok == failed \/ FramingText(kind, frs, np, no)
+                ok == failed \/ (e.x = 0 /\ FramingText(kind, frs, np, no))
             IN  /\ p' = np /\ out' = no
                 /\ failed' = (failed \/ ~ok)
-                /\ (IF ok THEN TRUE ELSE Reject(e, IF Len(no) > MayCount(kind, frs, np) THEN "framing_too_many_or_early"
+                /\ (IF ok THEN TRUE ELSE Reject(e, IF e.x = 1 THEN "reader_raised" ELSE IF Len(no) > MayCount(kind, frs, np) THEN "framing_too_many_or_early"
                                     ELSE IF \E K \in 0..Len(frs) : no = TextOut(kind, frs, K) THEN "framing_frame_withheld"
                                     ELSE "framing_message_corrupted_lost_or_duplicated"))
                 /\ UNCHANGED <<kind, frs>>
